@@ -436,5 +436,40 @@ def rule_a7(repo):
     return res
 
 
+def rule_a8(repo):
+    """Whether a fact may be used for a goal is the checker's question (ItemID.can_depend_on: an earlier line
+    of the same or an enclosing block).  The editor must ask it in the same words before it lets a method
+    build lines that cite the fact: edit steps are re-checked with compute_only=True, which skips lines that
+    already state a sequent, so an illegal citation would surface only in the final full check."""
+    res = RuleResult('C13.A8', 'a method is applied only to facts the goal can depend on, decided by the checker\'s own predicate', floor=1)
+    f = repo.func(METHOD, 'apply_method')
+    cfg = cfg_of(f.node)
+    applies = [n for n in cfg.nodes if n.kind == 'stmt' and any(isinstance(c, ast.Call) and call_attr(c) == 'apply' for c in ast.walk(n.ast))]
+    need(applies, 'apply_method: call of method.apply not found')
+
+    def visible(e, pol):
+        # all(goal.can_depend_on(f) for f in facts)  /  goal.can_depend_on(f) inside a loop over the facts
+        if not pol:
+            return False
+        if isinstance(e, ast.Call) and call_name(e) == 'all' and e.args and isinstance(e.args[0], (ast.GeneratorExp, ast.ListComp)):
+            return any(isinstance(c, ast.Call) and call_attr(c) == 'can_depend_on' for c in ast.walk(e.args[0].elt)) and \
+                not any(g.ifs for g in e.args[0].generators)
+        return False
+    edges = cfg.establishing_edges(visible)
+    loops = []
+    for it in cfg.nodes_of_kind('iter'):
+        tests = [t for t in cfg.test_nodes() if isinstance(t.ast, ast.Call) and call_attr(t.ast) == 'can_depend_on' and
+                 it.ast.lineno <= t.lineno <= (it.ast.end_lineno or 0)]
+        # the failing side of the test must not lead on to the application
+        if tests and all(not any(a.id in cfg.reach_from([b for b, l in t.succ if l == 'false']) for a in applies) for t in tests):
+            loops.append(it)
+    ok = bool(edges or loops) and all(cfg.path_avoiding(a, skip_edges=edges, skip_nodes=loops) is None for a in applies)
+    res.add('%s :: apply_method :: facts-visible-from-goal' % METHOD, ok,
+            'every fact passes goal_id.can_depend_on(fact) before the method is applied' if ok else
+            'the method is applied without asking can_depend_on for every fact: a line of a closed sibling block, or the line of the '
+            'enclosing block itself, can be cited; the step succeeds and the full check of the finished proof fails', f.loc)
+    return res
+
+
 def rules(repo):
-    return [rule_a1(repo), rule_a2(repo), rule_a3(repo), rule_a4(repo), rule_a5(repo), rule_a6(repo), rule_a7(repo)]
+    return [rule_a1(repo), rule_a2(repo), rule_a3(repo), rule_a4(repo), rule_a5(repo), rule_a6(repo), rule_a7(repo), rule_a8(repo)]
